@@ -92,7 +92,7 @@ class E6(ARig):
         raise KeyError(who)
 
 
-def _engine_run(ch, callers, offsets, R, window, faulty_verbs, fixed=None, noise=None, batch=False, cancel=None, stall=0.0):
+def _engine_run(ch, callers, offsets, R, window, faulty_verbs, fixed=None, noise=None, batch=False, cancel=None, stall=0.0, close_at=None):
     rig = E6(ch, window)
     rig.loop.batch_choices_enabled = batch
     rig.loop.stall = stall  # a loaded host: every timer wake-up late by this much
@@ -142,6 +142,16 @@ def _engine_run(ch, callers, offsets, R, window, faulty_verbs, fixed=None, noise
         cw, ct = cancel
         rig.loop.call_at(rig.loop.time() + ct, tasks[callers.index(cw)].cancel)
         cancelled.add(cw)
+    t_closed = []
+    if close_at is not None:
+        # the endpoint goes away under the callers (fatal socket error / disconnect by another task)
+        proto_ = rig.spa._protocol
+
+        def close_it():
+            t_closed.append(rig.loop.time())
+            proto_.disconnect()
+
+        rig.loop.call_at(rig.loop.time() + close_at, close_it)
     rig.loop.run_for(horizon, lambda: all(t.done() for t in tasks))
     why = None
     # ---- oracle ---------------------------------------------------------------------
@@ -189,7 +199,7 @@ def _engine_run(ch, callers, offsets, R, window, faulty_verbs, fixed=None, noise
                 if myw and done_at[who] - myw[0][2] > Rw * (TIMEOUT + PAUSE) + Rw * 3 * POLL + 0.5:
                     why = ("slow", f"status: completed {done_at[who]-myw[0][2]:.2f}s after its first attempt")
                 continue
-            if len(myw) != len(mine):
+            if len(myw) != len(mine) and not t_closed:  # (attempts made on a closed endpoint transmit nothing)
                 why = ("attempts", f"{who}: {len(mine)} transmissions but {len(myw)} waits")
             got = any(w[4] for w in myw)
             if (results.get(who) is not None) != got:
@@ -202,7 +212,7 @@ def _engine_run(ch, callers, offsets, R, window, faulty_verbs, fixed=None, noise
                 # a reply that arrived well inside one of its waits must have been taken - judged with at most one
                 # timer deviation (< half a polling interval of jitter): with wake-up jitter close to a whole polling interval the unhandled consumer may legitimately
                 # discard a reply before the waiter's next poll (the statement allows reporting failure then)
-                for w in (myw if sum(1 for k_, n_, c in ch.trace if k_ == "timer" and c) <= 1 else ()):
+                for w in (myw if sum(1 for k_, n_, c in ch.trace if k_ == "timer" and c) <= 1 and not t_closed else ()):
                     if any(a[1] == who and w[2] <= a[0] <= w[3] - 0.35 for a in arrived):
                         why = ("missed-reply", f"{who}: reported failure although a reply arrived during its wait "
                                                f"[{w[2]-t_base:.2f},{w[3]-t_base:.2f}]")
@@ -234,7 +244,11 @@ def _engine_run(ch, callers, offsets, R, window, faulty_verbs, fixed=None, noise
         strict = all(abs(enter[a] - enter[b]) > 1e-9 for a, b in itertools.combinations(callers, 2))
         if strict and order_in != order_out:
             why = ("order", f"callers entered {order_in} but were served {order_out}")
-    if why is None and (lib.LOG.records or rig.loop.exceptions):
+    if why is None and t_closed:
+        late = [(round(t - t_closed[0], 2), w) for (t, w, sq) in sent if t > t_closed[0] + 1e-9]
+        if late:
+            why = ("sent-after-close", f"transmissions after the endpoint was closed: {late[:3]}")
+    if why is None and (rig.loop.exceptions or [r for r in lib.LOG.records if not t_closed]):
         why = ("engine", f"errors: {lib.LOG.records[:2]} {rig.loop.exceptions[:2]}")
     obs = core.digest([[w, results.get(w) is not None, round(done_at.get(w, -1) - t_base, 3)] for w in callers_all])
     rig.close()
@@ -249,16 +263,17 @@ def _engine_job(job):
     (callers, offsets, R, window, faulty) = job[0][:5]
     batch = len(job[0]) > 6 and bool(job[0][6])
     cancel = job[0][7] if len(job[0]) > 7 else None
+    close_at = job[0][8] if len(job[0]) > 8 else None
 
     def body(ch):
-        why, obs = _engine_run(ch, callers, offsets, R, window, faulty, noise=noise, batch=batch, cancel=cancel)
+        why, obs = _engine_run(ch, callers, offsets, R, window, faulty, noise=noise, batch=batch, cancel=cancel, close_at=close_at)
         viol = []
         if why:
             fv = [(k, c) for k, n, c in ch.trace if c]
             viol.append((f"C06|engine|{why[0]}|n={len(callers)}",
                          f"callers {callers} at offsets {offsets} R={R}, deviations {fv}: {why[1]}",
                          {"mode": "engine", "callers": list(callers), "offsets": list(offsets), "R": R,
-                          "window": window, "faulty": list(faulty), "noise": noise, "batch": batch, "cancel": list(cancel) if cancel else None, "prefix": [list(p) for p in ch.trace]}))
+                          "window": window, "faulty": list(faulty), "noise": noise, "batch": batch, "cancel": list(cancel) if cancel else None, "close_at": close_at, "prefix": [list(p) for p in ch.trace]}))
         return {"violations": viol, "obs": obs, "end": obs}
 
     return explore.run_with(prefix, body)
@@ -597,6 +612,11 @@ def run(ctx):
         offs = (0.0, 0.05, 0.1)[:len(others)]
         for ct in (0.0, 0.02, 0.07, 0.12, 0.2, 1.0, 3.9, 4.05, 5.0, 6.1):
             plans.append((others, offs, 2, 0.0, (others[0],), None, False, (cw, ct)))
+    # the endpoint closes under the callers at every phase: all of them still complete (with a failure) in bounded time
+    for callers_ in (("version", "channel"), ("status", "ping"), ("press", "watercare", "version")):
+        offs = (0.0, 0.05, 0.1)[:len(callers_)]
+        for tc in (0.0, 0.02, 0.07, 0.12, 1.0, 3.9, 4.05, 5.0, 6.1):
+            plans.append((callers_, offs, 2, 0.0, (callers_[0],), None, False, None, tc))
     triples = [("version", "press", "watercare"), ("ping", "channel", "press")]
     for tr in triples:
         for o1, o2 in itertools.product(OFFSETS[:3] if ctx.quick else OFFSETS, repeat=2):
@@ -742,10 +762,12 @@ def replay(ctx, data):
     m = data.get("mode")
     if m == "engine":
         plan = (tuple(data["callers"]), tuple(data["offsets"]), data["R"], data["window"], tuple(data["faulty"]))
-        if data.get("noise") or data.get("batch") or data.get("cancel"):
+        if data.get("noise") or data.get("batch") or data.get("cancel") or data.get("close_at") is not None:
             plan = plan + (tuple(data["noise"]) if data.get("noise") else None, bool(data.get("batch")))
-            if data.get("cancel"):
-                plan = plan + ((data["cancel"][0], data["cancel"][1]),)
+            if data.get("cancel") or data.get("close_at") is not None:
+                plan = plan + (((data["cancel"][0], data["cancel"][1]) if data.get("cancel") else None),)
+            if data.get("close_at") is not None:
+                plan = plan + (data["close_at"],)
         res = _engine_job((plan, [tuple(p) for p in data["prefix"]]))
         ctx.merge_violations(res["violations"])
     elif m == "full":
